@@ -9,6 +9,7 @@ import EdzedModel.Counter
 import EdzedProofs.Counter
 import EdzedModel.Gen.Constants
 import EdzedModel.Gen.Translated
+import EdzedModel.Gen.TranslatedCounter
 
 namespace Edzed.Counter
 
@@ -69,6 +70,54 @@ theorem range_invariant (c : Cfg) (m : Num) (hc : c.mod = some m) (hm : 0 < m.q)
   induction ops generalizing o with
   | nil => exact h0
   | cons op ops ih => exact ih _ (step_in_range c m hc hm o h0 op)
+
+/-- a NEGATIVE modulo is accepted by the constructor (only zero is refused); Python's floored `%` then keeps
+    the output in `(M, 0]` -/
+def InRangeNeg (m : Num) (o : Num) : Prop := m.q < o.q ∧ o.q ≤ 0
+
+theorem reduce_in_range_neg (c : Cfg) (m : Num) (hc : c.mod = some m) (hm : m.q < 0) (v : Num) :
+    InRangeNeg m (reduce c v) := by
+  simp [reduce, hc, Num.mod, InRangeNeg]
+  exact ⟨fmod_gt _ _ hm, fmod_nonpos _ _ hm⟩
+
+/-- `range_invariant` for a negative modulo: after initialisation and after every event sequence the output
+    is in `(M, 0]` -/
+theorem range_invariant_neg (c : Cfg) (m : Num) (hc : c.mod = some m) (hm : m.q < 0)
+    (restored : Option Num) (ops : List Op) :
+    InRangeNeg m (run c (init c restored) ops) := by
+  have key : ∀ o v, InRangeNeg m (store o (reduce c v)) := fun o v => by
+    have := reduce_in_range_neg c m hc hm v
+    simpa [InRangeNeg, store_q] using this
+  have h0 : InRangeNeg m (init c restored) := reduce_in_range_neg c m hc hm _
+  generalize init c restored = o at h0
+  induction ops generalizing o with
+  | nil => exact h0
+  | cons op ops ih =>
+    refine ih _ ?_
+    cases op with
+    | put v => cases v with
+      | none => exact h0
+      | some x => exact key o x
+    | inc a => exact key o _
+    | dec a => exact key o _
+    | reset => exact key o _
+
+/-- every accepted configuration is covered: no modulo, a positive one (`range_invariant`) or a negative one
+    (`range_invariant_neg`) -/
+theorem valid_cfg_cases (c : Cfg) (h : c.valid = true) :
+    c.mod = none ∨ (∃ m, c.mod = some m ∧ 0 < m.q) ∨ (∃ m, c.mod = some m ∧ m.q < 0) := by
+  unfold Cfg.valid at h
+  cases hm : c.mod with
+  | none => exact .inl rfl
+  | some m =>
+    simp [hm] at h
+    by_cases h1 : m.q < 0
+    · exact .inr (.inr ⟨m, rfl, h1⟩)
+    · refine .inr (.inl ⟨m, rfl, ?_⟩)
+      grind
+
+example : InRangeNeg ⟨-3, .int⟩ (run ⟨some ⟨-3, .int⟩, ⟨5, .int⟩⟩ (init ⟨some ⟨-3, .int⟩, ⟨5, .int⟩⟩ none) [.inc none, .inc none]) := by
+  unfold InRangeNeg; decide +kernel
 
 /-- one step commutes with reduction of the unreduced accumulator -/
 theorem step_refines (c : Cfg) (m : Num) (hc : c.mod = some m) (hm : m.q ≠ 0)
@@ -170,5 +219,61 @@ theorem translated_modulo_check_is_model (c : Counter.Cfg) :
   cases c.mod with
   | none => rfl
   | some m => simp only [Option.map_some, bne, Bool.not_not]; rfl
+
+/-! ### the constructor and the class-level aliases (`Gen/TranslatedCounter.lean`) -/
+
+open Gen.TrCnt in
+/-- `Counter.__init__` as translated: a zero modulo is refused BEFORE anything is stored or the base class is
+    initialised; otherwise the modulo is stored unchanged and `initdef` is handed to the base constructor
+    (which makes it the value of the regular initialisation and of `reset`) -/
+theorem translated_counter_init_is_model (c : Counter.Cfg) :
+    counterInit (c.mod.map (·.q)) (some c.initdef.q) =
+      if c.valid then [Prim.setMod (c.mod.map (·.q)), Prim.superInit c.initdef.q]
+      else [Prim.raise "ValueError"] := by
+  unfold counterInit Counter.Cfg.valid
+  cases hm : c.mod with
+  | none => simp
+  | some m =>
+    by_cases h0 : m.q = 0
+    · simp [h0]
+    · simp [h0]
+
+open Gen.TrCnt in
+/-- an omitted `initdef` is 0 (the signature's default), an omitted `modulo` is `None` = no reduction -/
+theorem translated_counter_init_defaults :
+    counterInit none none = [Prim.setMod none, Prim.superInit 0] := by
+  decide
+
+open Gen.TrCnt in
+/-- for EVERY argument pair: nothing is stored and the base class is not initialised iff the modulo is zero -/
+theorem translated_counter_init_refuses_iff_zero (m i : Option Rat) :
+    (counterInit m i = [Prim.raise "ValueError"]) ↔ m = some 0 := by
+  unfold counterInit
+  constructor
+  · intro h
+    by_cases hz : m = some 0
+    · exact hz
+    · simp [hz] at h
+  · intro h; simp [h]
+
+open Gen.TrCnt in
+/-- `init_from_value` and `_restore_state` ARE `_setmod` (class-level aliases, checked by the translator against
+    the class dictionary at run time too): the initial value and a restored value go through the same reduction
+    as every event — which is what the model's `init` says -/
+theorem translated_counter_aliases_are_setmod :
+    counterAliases = [("init_from_value", "_setmod"), ("_restore_state", "_setmod")]
+    ∧ ∀ (c : Counter.Cfg) (r : Option Counter.Num),
+        (Counter.init c r).q = Gen.Tr.counterSetmod (c.mod.map (·.q)) (r.getD c.initdef).q := by
+  refine ⟨rfl, fun c r => ?_⟩
+  unfold Counter.init
+  exact (translated_setmod_is_model c _).symm
+
+open Gen.TrCnt in
+/-- the class defines exactly the handlers of the model's operations (an added `_event_*` method would be a
+    behaviour the model does not have) and inherits the persistence add-on before `SBlock` -/
+theorem translated_counter_class_shape :
+    counterMethods = ["__init__", "_setmod", "_event_inc", "_event_dec", "_event_put", "_event_reset"]
+    ∧ counterBases = ["addons.AddonPersistence", "block.SBlock"] := by
+  exact ⟨rfl, rfl⟩
 
 end Edzed.TrTie
